@@ -183,29 +183,32 @@ class ProofModel:
             return Verdict("reject", "bad_mac", "s8_bad_mac")
         if trailing != 0:
             # whether this presentation reached the nonce step is undecided too
-            self.taint(nonce)
+            self.taint(nonce, now_mono)
             return Verdict("unknown", "noncanonical_b64_mac_trailing_bits", "s8_bad_mac")
         claims = {"verified": "true", "proxy": label, "kid": kid, "origin_id": self.origin_id, "reason": "ok"}
         if not self.replay_enabled:
             return Verdict("ok", "ok", "ok", claims)
         return self._nonce_step(nonce, now_mono, claims)
 
-    def taint(self, nonce: str) -> None:
-        """Mark *nonce* as 'unknown whether remembered': verdicts that depend on it become ``unknown``."""
+    def taint(self, nonce: str, now: float) -> None:
+        """Record that *nonce* was presented at *now* in a way whose effect on the remembered set is undecided
+        (the verifier may or may not have remembered it): verdicts that depend on it become ``unknown``."""
         if not self.replay_enabled:
             return
         rec = self.nonces.get(nonce)
         if rec is not None:
             rec.tainted = True
+            rec.last_seen = max(rec.last_seen, now)
         else:
-            self.evicted[nonce] = float("inf")
+            self.evicted.pop(nonce, None)
+            self._remember(nonce, now, tainted=True)
 
     def _nonce_step(self, nonce: str, now: float, claims: dict[str, str]) -> Verdict:
         ttl = float(self.skew)
         rec = self.nonces.get(nonce)
         if rec is None:
             ev_at = self.evicted.pop(nonce, None)
-            if ev_at is not None and (ev_at == float("inf") or now - ev_at <= ttl):
+            if ev_at is not None and now - ev_at <= ttl:
                 self._remember(nonce, now, tainted=True)
                 return Verdict("unknown", "nonce_evicted_by_capacity", "s9_replayed")
             self._remember(nonce, now)
@@ -239,8 +242,15 @@ class ProofModel:
         # drop entries that have left the window (they cannot matter any more)
         for k in [k for k, r in self.nonces.items() if now - max(r.accepted_at, r.last_seen) > ttl]:
             del self.nonces[k]
-        live = [k for k, r in self.nonces.items() if now - r.accepted_at < ttl]
+        # possibly-remembered (tainted) entries count as live from their last presentation on: the model must
+        # never believe the real cache holds fewer entries than it may hold
+        live = [k for k, r in self.nonces.items() if k != nonce and (now - r.accepted_at < ttl or (r.tainted and now - r.last_seen < ttl))]
         while len(live) >= self.capacity:
+            if tainted or any(self.nonces[k].tainted for k in live):
+                # which entry the cap evicts (if any) is not decidable: everything live becomes undecided
+                for k in live:
+                    self.nonces[k].tainted = True
+                break
             oldest = min(live, key=lambda k: self.nonces[k].accepted_at)
             live.remove(oldest)
             self.evicted[oldest] = self.nonces[oldest].accepted_at
